@@ -265,6 +265,12 @@ class Ctx:
           self.known_hits.append((key, k.get('what', what)))
         return
     if any(v[0] == key for v in self.violations): return
+    fam = ':'.join(key.split(':')[:2])
+    self._fam = getattr(self, '_fam', {})
+    self._fam[fam] = self._fam.get(fam, 0) + 1
+    if self._fam[fam] > 5:
+      self.extra['suppressed_further_violations_' + fam] = self._fam[fam] - 5
+      return
     h = hashlib.sha1(key.encode()).hexdigest()[:10]
     path = VERIF / 'replays' / f'{self.pid}-{h}.json'
     path.parent.mkdir(exist_ok=True)
